@@ -90,6 +90,15 @@ CLAIMED = {
         "comparison with the model, authentic responses sweeping all lengths 100..300, recording-hash key derivation",
         "HMAC / hash functions are abstract in Lean (theorems hold for every function) and trusted in hashlib",
     ),
+    "C11": (
+        "proof: for every privacy plug-in (enc, dec): msgData of the datagram = OCTET STRING of enc(key, engine id, boots, time, "
+        "bytes(scoped PDU)).1 with key = privacy pass-phrase localised to the discovered engine id by the auth hash, privacy "
+        "parameters = the returned salt, and the independent reader finds exactly that in the datagram; the datagram depends on "
+        "the scoped PDU only through the plug-in's output; incoming decryption uses the key and the engine id / boots / time / "
+        "salt found in the message; dec o enc = id implies every payload round-trips; tied by a recording keyed-stream plug-in "
+        "in the plug-in namespace: wire bytes, recorded arguments, visibility of SET payload / context name, results",
+        "exercised with one plug-in (the theorems quantify over all); cipher strength is outside the property",
+    ),
     "C12": (
         "proof (partial): first datagram of a fresh client is a discovery probe in every history; every request carries the "
         "discovered engine id (security and default context engine id); refused discovery replies (foreign msg id / no bindings) "
